@@ -228,8 +228,10 @@ func c10SortLeases(ls []c10Lease) {
 type c10World struct {
 	t     testing.TB
 	conf  c10Conf
-	dir   string
-	srv   *server
+	// dir: the data directory (DataDir); work: the installation's working
+	// directory (WorkDir), which contains it.
+	dir, work string
+	srv       *server
 	s4    *v4Server
 	shift time.Duration
 	// icmp: the running server probes addresses (ICMPTimeout > 0).  Only ever
@@ -399,7 +401,7 @@ func (w *c10World) firstYaml() *ServerConfig {
 // writes to the disk.
 func (w *c10World) start(live bool) (srv *server, err error) {
 	y := *w.yaml
-	y.DataDir, y.WorkDir = w.dir, w.dir
+	y.DataDir, y.WorkDir = w.dir, w.work
 	y.Conf4.dnsIPAddrs = []netip.Addr{c10Addr(w.conf.Self)}
 	y.ConfigModified = func() {}
 	if live {
@@ -488,16 +490,31 @@ func (w *c10World) status() (v c10StatusView, err error) {
 
 // strays lists the lease files outside the data directory: anything the
 // process wrote into its (scratch, otherwise empty) working directory.
-func c10Strays() (found []string) {
-	if c10Scratch == "" {
-		return nil
+func (w *c10World) strays() (found []string) {
+	if c10Scratch != "" {
+		filepath.WalkDir(c10Scratch, func(p string, d os.DirEntry, err error) error {
+			if err == nil && p != c10Scratch {
+				found = append(found, p)
+			}
+			return nil
+		})
 	}
-	filepath.WalkDir(c10Scratch, func(p string, d os.DirEntry, err error) error {
-		if err == nil && p != c10Scratch {
-			found = append(found, p)
+	// The working directory of the installation holds the data directory and
+	// nothing else; the data directory holds the lease file and nothing else.
+	if es, err := os.ReadDir(w.work); err == nil {
+		for _, e := range es {
+			if e.Name() != filepath.Base(w.dir) {
+				found = append(found, filepath.Join(w.work, e.Name()))
+			}
 		}
-		return nil
-	})
+	}
+	if es, err := os.ReadDir(w.dir); err == nil {
+		for _, e := range es {
+			if e.Name() != dataFilename {
+				found = append(found, filepath.Join(w.dir, e.Name()))
+			}
+		}
+	}
 	return found
 }
 
@@ -685,8 +702,12 @@ func (w *c10World) apply(o c10Op) (r c10Reply, panicked string) {
 	case c10Discover, c10Request, c10Decline, c10Release:
 		if !w.configured() {
 			// An unconfigured server has no socket (Start returns at once): no
-			// message reaches it.  The generators do not produce this.
-			w.t.Fatalf("C10: harness: a message for an unconfigured server")
+			// message reaches it.  The generators do not produce this on the
+			// unchanged tree; when a changed tree leaves the server unconfigured
+			// where the history expects settings, the message is dropped (and
+			// the model, which has settings there, disagrees).
+			r = c10Reply{Code: -1}
+			break
 		}
 		req, resp := w.message(o)
 		code := w.s4.handle(req, resp)
@@ -1169,12 +1190,18 @@ func (e *c10Enc) op(o c10Op) string {
 
 // c10Run executes one history and emits its case.
 func c10Run(t *testing.T, out *vfOut, h c10History) {
-	dir, err := os.MkdirTemp("", "c10")
+	// As package home lays it out: the data directory inside the working
+	// directory of the installation.
+	base, err := os.MkdirTemp("", "c10")
 	if err != nil {
 		t.Fatal(err)
 	}
-	defer os.RemoveAll(dir)
-	w := &c10World{t: t, conf: h.conf, dir: dir, icmp: h.icmp && c10Probe, fresh: h.fresh}
+	defer os.RemoveAll(base)
+	dir := filepath.Join(base, "data")
+	if err = os.Mkdir(dir, 0o755); err != nil {
+		t.Fatal(err)
+	}
+	w := &c10World{t: t, conf: h.conf, dir: dir, work: base, icmp: h.icmp && c10Probe, fresh: h.fresh}
 	origPath := filepath.Join(dir, dataFilename)
 	defer func() {
 		for ip := range c10Lo {
@@ -1485,7 +1512,7 @@ func c10Run(t *testing.T, out *vfOut, h c10History) {
 		if shadow, serr := w.start(false); serr != nil {
 			fail(i, "restart-fails", "a process start after the step fails: %v", serr)
 		} else {
-			sw := &c10World{t: t, conf: w.conf, dir: dir, srv: shadow, s4: shadow.srv4.(*v4Server)}
+			sw := &c10World{t: t, conf: w.conf, dir: dir, work: base, srv: shadow, s4: shadow.srv4.(*v4Server)}
 			if st := sw.table(); !c10SameLeases(st, after) {
 				c10SortLeases(st)
 				fail(i, "restart-differs", "a process started after the step has the table %v, memory holds %v (leases.json: %v)", st, sorted, disk)
@@ -1495,7 +1522,7 @@ func c10Run(t *testing.T, out *vfOut, h c10History) {
 		}
 		// The service keeps writing the lease file of the data directory it was
 		// created with, and nothing else (each reported once per history).
-		if st := c10Strays(); len(st) > 0 {
+		if st := w.strays(); len(st) > 0 {
 			fail(i, "stray-lease-file", "files written outside the data directory: %v", st)
 			for _, p := range st {
 				os.RemoveAll(p)
